@@ -44,15 +44,17 @@ P3 = ("p1", "p2", "p3")
 
 def replay_instances(ctx):
     """Instances whose whole state graph is printed and replayed (each <= ~1.5e5 transitions)."""
+    v12 = "{1}" if ctx.quick else "{1, 2}"   # quick: the two widest graphs with one tag value only
     out = [
         # three equal connections: every tie of the sort is a real tie; values decide otherwise
         inst("order3", P3, ("p1a", "p2a", "p3a"), profile=1),
         # grace boundary (age = Grace exactly vs older), two connections on p1, background ticker
         inst("grace2", ("p1", "p2"), ("p1a", "p1b", "p2a"), grace=2, maxage=3, silence=2, profile=3),
         # protection with two tags next to two unprotected peers; streams/direction break the ties
-        inst("protect3", P3, ("p1a", "p2a", "p3a"), tagpeers=("p1", "p2"), prot2=("p1",), prot1=("p3",), profile=2),
+        inst("protect3", P3, ("p1a", "p2a", "p3a"), tagpeers=("p1", "p2"), vals=v12, prot2=("p1",), prot1=("p3",),
+             profile=2),
         # several tags per peer: value arithmetic of TagPeer/UntagPeer/UpsertTag
-        inst("tags2", ("p1", "p2"), ("p1a", "p1b", "p2a"), tags=("t", "u"), profile=2),
+        inst("tags2", ("p1", "p2"), ("p1a", "p1b", "p2a"), tags=("t", "u"), vals=v12, profile=2),
         # low watermark 2, four peers (24 orders), one protectable
         inst("low2", ("p1", "p2", "p3", "p4"), ("p1a", "p2a", "p3a", "p4a"), tagpeers=("p1", "p2"), vals="{1}",
              low=2, high=3, prot1=("p3",), profile=3),
@@ -317,6 +319,7 @@ def run(ctx):
     with cf.ProcessPoolExecutor(max_workers=1) as pe, cf.ProcessPoolExecutor(max_workers=lanes) as pr, \
             cf.ProcessPoolExecutor(max_workers=1) as ps:
         fs = ps.submit(_harness, ctx, "^TestVerifC14Stress$", None)
+        fo = ps.submit(_harness, ctx, "^TestVerifC14Overlap$", None)
         fe = [pe.submit(_exhaustive, (ctx, i, ew)) for i in einsts]
         # a trim that skips a protected peer and closes another one / a forced trim closing a protected peer
         fg = [pe.submit(_reach, (ctx, einsts[0], probe, ew)) for probe in ("ReachProtSkip", "ReachForceProt")]
@@ -331,6 +334,7 @@ def run(ctx):
         rres = [f.result() for f in fr]
         log("C14: graphs and walks done at %.1fs" % ctx.wall())
         stress = fs.result()
+        overlap = fo.result()
         gates = fgh.result()
         log("C14: stress and interference scenarios done at %.1fs" % ctx.wall())
 
@@ -349,6 +353,7 @@ def run(ctx):
             raise MachineryError("vacuity guard: no replayed transition of kind %s" % k)
 
     div = classify_mismatches(ctx, stress, "stress")
+    div += classify_mismatches(ctx, overlap, "overlap")
 
     div += classify_mismatches(ctx, gates, "gates")
     gx = gates.get("extra") or {}
@@ -375,6 +380,7 @@ def run(ctx):
         interference={"instance": gres[0], "states": gres[1], "transitions": gres[3], "scripts": gres[4],
                       "script_families_available": gres[5], "runs": gates["replayed"], "runs_delivered": gates["distinct"],
                       "detail": gx, "rule": gates.get("rule")},
+        overlapping_trims={"rounds": overlap["replayed"], "detail": overlap.get("extra"), "rule": overlap.get("rule")},
         stress_rounds=stress["replayed"], stress_operations=stress["steps"],
         divergences_L2=div, notes=ctx.notes[:10], rule=res.get("rule"), stress_rule=stress.get("rule"))
     return {"level": "model_checking", "coverage": cov, "assumptions": [
